@@ -4,7 +4,7 @@ from hypothesis import strategies as st
 
 from ..campaign import Result
 from ..structural import (SJob, SSched, SPure, closure, transitive, is_acyclic, quiet,
-                          STRUCT_ASSUMPTIONS)
+                          STRUCT_ASSUMPTIONS, sparse_edges)
 
 ID = 'C18'
 LEVEL = 'exploration'
@@ -55,7 +55,26 @@ def as_container(items, kind):
 
 
 @st.composite
+def big_case(draw):
+    seed = draw(st.integers(1, 2 ** 16))
+    if draw(st.booleans()):
+        n = 300
+        edges = sparse_edges(n, seed)
+    else:
+        n = 1100
+        edges = [[i, i + 1] for i in range(n - 1)]
+    ops = [['between', [seed % 40], [n - 1 - seed % 40], bool(seed & 1), bool(seed & 2), seed % 5],
+           ['bypass', seed % n]]
+    return dict(n=n, edges=edges, hkeys=[(i * 7 + seed) % 16 for i in range(n)],
+                order=sorted(range(n), key=lambda i: (i * 7919 + seed) % 1009),
+                top=draw(st.sampled_from(['pure', 'nestable'])),
+                program=ops[:draw(st.integers(1, 2))], big=True)
+
+
+@st.composite
 def cases(draw):
+    if draw(st.integers(0, 299)) == 0:
+        return draw(big_case())
     n = draw(st.integers(1, 12))
     density = draw(st.sampled_from([10, 25, 45]))
     edges = [[a, b] for b in range(n) for a in range(b) if draw(st.integers(0, 99)) < density]
@@ -183,7 +202,7 @@ def evaluate(case):
                          "%s: requirements after %s, expected %s" % (tag, got_req, want_req))
                 break
             dropped = members - want_members
-            before = transitive(members, edges)
+            before = transitive(members, edges) if len(members) <= 50 else set()
             if any((a, d) in before and (d, b) in before
                    for d in dropped for a in want_members for b in want_members):
                 nontrivial.append('kept-set-cuts-a-path')
